@@ -11,23 +11,32 @@ variable {α : Type} [Field α] [LinearOrder α] [IsStrictOrderedRing α]
 theorem all_mem {p : Cls → Bool} {l : List Cls} (h : l.all p = true) {t : Cls} (ht : t ∈ l) : p t = true :=
   List.all_eq_true.mp h t ht
 
-/-- **the property's history clause for the six classes of /repo's current source**: construct any of them with any
-arguments, apply any sequence of assignments (accepted or rejected); every observation (energy density at every
-point, generated segments, every getter, wavelengths, power spectral density, `spectrum(x)`) equals that of the
-object constructed from the parameters the first one reports. -/
-theorem history_eq_fresh_all (E : Ext α) (hc : 0 < E.c) (t : Cls) (ht : t ∈ classes)
-    (args : String → α) (ops : List (String × α)) (hrun : (runCtor E t args).2 = .ok)
-    (hfresh : (runCtor E t (reported t (runOps E t (runCtor E t args).1 ops))).2 = .ok) :
-    ObsEq E t (runOps E t (runCtor E t args).1 ops)
-      (runCtor E t (reported t (runOps E t (runCtor E t args).1 ops))).1 := by
+/-- all decidable table conditions hold for the six classes of /repo's current source -/
+theorem tables_ok : classes.all tableOkB = true := by
+  apply List.all_eq_true.mpr
+  intro t ht
   have hwf := all_mem tables_well_formed ht
-  simp only [Bool.and_eq_true] at hwf
+  have hc2 := all_mem constructors_accept_valid_parameters ht
+  simp only [Bool.and_eq_true] at hwf hc2
   obtain ⟨⟨⟨⟨hu, hsw⟩, hpw⟩, hgo⟩, hobs⟩ := hwf
+  obtain ⟨⟨hrs, hcp⟩, hpc⟩ := hc2
   have hcov : coveredB t = true := by
     rcases List.mem_append.mp ht with h | h
     · exact all_mem covered_profiles h
     · exact all_mem covered_spectra h
-  exact history_eq_fresh E hc t hcov (all_mem rejected_assignments_atomic ht) hu hsw
-    (all_mem constructors_complete ht) hpw hgo hobs args ops hrun hfresh
+  simp only [tableOkB, Bool.and_eq_true]
+  exact ⟨⟨⟨⟨⟨⟨⟨⟨⟨⟨hcov, all_mem rejected_assignments_atomic ht⟩, hu⟩, hsw⟩, all_mem constructors_complete ht⟩, hpw⟩,
+    hgo⟩, hobs⟩, hrs⟩, hcp⟩, hpc⟩
+
+/-- **the property's history clause for the six classes of /repo's current source**: construct any of them with any
+accepted arguments, apply any sequence of assignments (accepted or rejected); the object constructed from the
+parameters the first one reports is accepted, and every observation (energy density at every point, generated
+segments, every getter, wavelengths, power spectral density, `spectrum(x)`) of the two coincides. -/
+theorem history_eq_fresh_all (E : Ext α) (hc : 0 < E.c) (t : Cls) (ht : t ∈ classes)
+    (args : String → α) (ops : List (String × α)) (hrun : (runCtor E t args).2 = .ok) :
+    (runCtor E t (reported t (runOps E t (runCtor E t args).1 ops))).2 = .ok ∧
+    ObsEq E t (runOps E t (runCtor E t args).1 ops)
+      (runCtor E t (reported t (runOps E t (runCtor E t args).1 ops))).1 :=
+  history_eq_fresh_total E hc t (all_mem tables_ok ht) args ops hrun
 
 end Cherab.Props.C18Table
